@@ -28,6 +28,7 @@ Inside an extract block the lines are annotation sub-directives:
    @loop N            following lines: invariant/decreases text spliced before the N-th loop body (E3)
    @sync-around-all <lit> ... @then ...     rule E16 around *every* statement starting with <lit> (lines before, then lines after)
    @sync-before <lit> / @sync-after <lit>   rule E16: insert `alias_sync(&mut x, &y);` (and nothing else) around a collaborator call
+   @before-last <lit> like @before; with several occurrences the text goes before the last one
    @block-end <lit>   following lines: ghost text inserted before the closing brace of the block that opens after <lit>
    @loop-end N        following lines: ghost text inserted before the closing brace of the N-th loop's body
    @body              following lines: ghost text inserted right after the body's `{`
@@ -558,6 +559,12 @@ def parse_block(lines):
             cur = blk["body"]
         elif s.startswith("@tail"):
             cur = blk["tail"]
+        elif s.startswith("@before-last "):
+            # like @before, but if the statement occurs several times (e.g. an early-return path repeats it) the ghost
+            # text goes before the LAST occurrence
+            ent = ["\x02last\x02" + s[len("@before-last "):].strip(), []]
+            blk["before"].append(ent)
+            cur = ent[1]
         elif s.startswith("@before "):
             ent = [s[len("@before "):].strip(), []]
             blk["before"].append(ent)
@@ -642,7 +649,70 @@ IDIOMS = [
 ]
 
 
+def _split_top(s, sep=","):
+    """split at top-level separators (not inside brackets)"""
+    out, depth, cur = [], 0, ""
+    for ch in s:
+        if ch in "([{":
+            depth += 1
+        elif ch in ")]}":
+            depth -= 1
+        if ch == sep and depth == 0:
+            out.append(cur)
+            cur = ""
+        else:
+            cur += ch
+    if cur.strip():
+        out.append(cur)
+    return [x.strip() for x in out if x.strip()]
+
+
+def unroll_array_loops(text, log):
+    """E19: `for x in [a, b, c] { body }` (by-value iteration over an array literal; Verus has no spec for
+    core::array::IntoIter) is unrolled into `{ let x = a; body } { let x = b; body } { let x = c; body }`.  Only when the
+    body contains no `break` / `continue` / loop label, so that the unrolled text means the same."""
+    rx = re.compile(r"\bfor\s+(\w+)\s+in\s+\[")
+    pos = 0
+    while True:
+        m = mask(text)
+        h = rx.search(mask_comments(text), pos)
+        if not h:
+            return text
+        if m[h.start()] != text[h.start()]:
+            pos = h.end()
+            continue
+        # the array literal
+        j, depth = h.end(), 1
+        while j < len(m) and depth:
+            depth += m[j] in "([{"
+            depth -= m[j] in ")]}"
+            j += 1
+        arr = text[h.end():j - 1]
+        k = j
+        while k < len(m) and m[k].isspace():
+            k += 1
+        if k >= len(m) or m[k] != "{" or ";" in arr:
+            pos = h.end()
+            continue
+        e, depth = k + 1, 1
+        while e < len(m) and depth:
+            depth += m[e] == "{"
+            depth -= m[e] == "}"
+            e += 1
+        body = text[k + 1:e - 1]
+        if re.search(r"\b(break|continue)\b|'\w+\s*:", mask(body)):
+            pos = h.end()
+            continue
+        elems = _split_top(arr)
+        seg = text[h.start():e]
+        new = " ".join("{ let %s = %s; %s }" % (h.group(1), el, " ".join(body.split("\n"))) for el in elems)
+        text = text[:h.start()] + new + "\n" * seg.count("\n") + text[e:]
+        log.append(f"E19 idiom (`for {h.group(1)} in [..{len(elems)} elements..]` over an array literal unrolled: core::array::IntoIter has no Verus spec)")
+        pos = h.start() + len(new)
+
+
 def apply_idioms(text, log):
+    text = unroll_array_loops(text, log)
     for pat, to, why in IDIOMS:
         rx = re.compile(pat)
         m = mask(text)
@@ -850,13 +920,16 @@ def transform_fn(text, opts, blk, log, what, in_trait_impl):
             check_sync(lines, what)
         else:
             check_ghost(lines, what)
+        last = lit.startswith("\x02last\x02")
+        if last:
+            lit = lit[len("\x02last\x02"):]
         pat = ws_pattern(lit)
         mb = mask(body)
         hits = [h for h in pat.finditer(mask_comments(body)) if mb[h.start()] == body[h.start()]]
-        if len(hits) != 1:
+        if len(hits) != 1 and not (last and len(hits) > 1):
             raise ExtractError("rewrite-miss", f"{what}: @before `{lit}` occurs {len(hits)} times")
         ins = "\x01".join(l.rstrip() for l in lines if l.strip())
-        body = body[:hits[0].start()] + ins + "\x01" + body[hits[0].start():]
+        body = body[:hits[-1].start()] + ins + "\x01" + body[hits[-1].start():]
         log.append(f"ghost text inserted before `{lit}`")
     for lit, lines in blk["blockends"]:
         # ghost text before the closing brace of the block opened by the first `{` after <literal>
